@@ -376,7 +376,7 @@ func RunC11(env *sim.Env) {
 		n := t.Range(2, 12)
 		for i := 0; i < n; i++ {
 			var o op
-			switch t.Weighted(6, 2, 3, 2, 3, 2, 1, 1, 1, 2, 1, 2, 2, 1, 2) {
+			switch t.Weighted(6, 2, 3, 2, 3, 3, 1, 1, 2, 3, 1, 2, 2, 2, 2) {
 			case 0:
 				k := stableKeys[t.Choose(len(stableKeys))]
 				parts := strings.Split(k, "|")
